@@ -47,6 +47,19 @@ func opRow(t *Tape, i, sec int) []octosql.Value {
 	return []octosql.Value{a, b, octosql.NewTime(T(tk))}
 }
 
+// withTrailingWatermark runs its source and then sends one watermark.
+type withTrailingWatermark struct {
+	source execution.Node
+	wm     time.Time
+}
+
+func (w *withTrailingWatermark) Run(ctx execution.ExecutionContext, produce execution.ProduceFn, metaSend execution.MetaSendFn) error {
+	if err := w.source.Run(ctx, produce, metaSend); err != nil {
+		return err
+	}
+	return metaSend(execution.ProduceFromExecutionContext(ctx), execution.MetadataMessage{Type: execution.MetadataMessageTypeWatermark, Watermark: w.wm})
+}
+
 type triggerCfg struct {
 	counting  int // 0 = none
 	watermark bool
@@ -266,7 +279,14 @@ func opScenario(r *Run, mode string) {
 			attrs["lookup_side"] = "retracts"
 		}
 		// joined side: rows whose key equals the source record's a (variable one level up)
-		joined := nodes.NewFilter(nodes.NewInMemoryRecords(recs),
+		var lookedUp execution.Node = nodes.NewInMemoryRecords(recs)
+		if hdr.Chance(1, 3) {
+			// the looked-up stream is watermarked itself (a table behind max_diff_watermark): every run of it
+			// ends with its own, small watermark, which says nothing about the join's output
+			lookedUp = &withTrailingWatermark{source: lookedUp, wm: T(1)}
+			attrs["lookup_side_watermarked"] = "true"
+		}
+		joined := nodes.NewFilter(lookedUp,
 			fnExpr(func(a []octosql.Value) octosql.Value { return octosql.NewBoolean(a[0].Int == a[1].Int) },
 				execution.NewVariable(0, 0), execution.NewVariable(1, 0)))
 		node = nodes.NewLookupJoin(src, joined)
